@@ -45,7 +45,8 @@ MCWorker ==
     \/ HandlerReturn(now)
     \/ MainEndsOk
     \/ MainFails
-    \/ ErrHookStep(now)
+    \/ ErrHookTake(now)
+    \/ ErrHookCall(now)
 
 MCTick ==
     /\ ~AnyEnabled(now)
